@@ -58,6 +58,12 @@ def gen_job(r, files):
     for i, h in enumerate(["a", "b", "c", "d"]):
         txt = txt.replace(f"#{h}", f"#{i}").replace(f"$.headers.{h}", f"$.headers.{i}")
     name = r.choice(files)[0]
+    x = r.random()
+    if x < 0.3:
+        # a line-extending job: the appended header must stay this job's own business
+        txt = txt[:-1] + ' append("extra_h", line_number())]'
+    elif x < 0.6:
+        txt = txt[:-1] + ' @hc = count_headers() print("$.csvpath.headers")]'
     return {"text": txt.replace("@@FILE@@", name), "file": name, "shape": lang.prog_shape(prog)}
 
 
